@@ -12,6 +12,7 @@ import (
 	"io"
 	"net"
 	"net/netip"
+	"os"
 	"sync"
 	"sync/atomic"
 	"time"
@@ -28,6 +29,7 @@ type netEnv struct {
 	greetTCP *net.TCPListener // target that speaks first: sends greeting, then echoes
 	dnsUDP   *net.UDPConn
 	dnsTCP   *net.TCPListener
+	echo53   *net.UDPConn // UDP echo on port 53 of a loopback address of its own (nil if it cannot be bound)
 	wg       sync.WaitGroup
 	closed   atomic.Bool
 
@@ -89,6 +91,10 @@ func newNetEnv() (*netEnv, error) {
 	if err != nil {
 		return nil, err
 	}
+	e.echo53 = bindEcho53()
+	if e.echo53 != nil {
+		e.wg.Go(e.serveEcho53)
+	}
 	e.wg.Go(e.serveEchoTCP)
 	e.wg.Go(e.serveGreetTCP)
 	e.wg.Go(e.serveEchoUDP)
@@ -100,8 +106,46 @@ func newNetEnv() (*netEnv, error) {
 func (e *netEnv) echoPort() int { return e.echoTCP.Addr().(*net.TCPAddr).Port }
 func (e *netEnv) dnsPort() int  { return e.dnsTCP.Addr().(*net.TCPAddr).Port }
 
+// bindEcho53 binds UDP port 53 on a loopback address derived from the process id (all of 127/8 is
+// local on Linux), so that concurrent children do not collide; needs the privilege to bind ports
+// below 1024. Returns nil if that is not possible.
+func bindEcho53() *net.UDPConn {
+	pid := os.Getpid()
+	for i := range 64 {
+		x := pid*64 + i
+		ip := net.IPv4(127, byte(64+(x>>16)%64), byte(x>>8), byte(1+x%254))
+		if c, err := net.ListenUDP("udp4", &net.UDPAddr{IP: ip, Port: 53}); err == nil {
+			return c
+		}
+	}
+	return nil
+}
+
+// echo53Addr returns "ip:53" of the port-53 echo target, or "" if there is none.
+func (e *netEnv) echo53Addr() string {
+	if e.echo53 == nil {
+		return ""
+	}
+	return e.echo53.LocalAddr().String()
+}
+
+func (e *netEnv) serveEcho53() {
+	b := make([]byte, 65536)
+	for {
+		n, from, err := e.echo53.ReadFromUDPAddrPort(b)
+		if err != nil {
+			return
+		}
+		e.udpReceived.Add(1)
+		e.echo53.WriteToUDPAddrPort(b[:n], from)
+	}
+}
+
 func (e *netEnv) close() {
 	e.closed.Store(true)
+	if e.echo53 != nil {
+		e.echo53.Close()
+	}
 	e.echoTCP.Close()
 	e.echoUDP.Close()
 	e.echoUDP2.Close()
@@ -334,7 +378,8 @@ type probeResult struct {
 	Err      string `json:"err,omitempty"`
 	NTSeen   bool   `json:"ntSeen,omitempty"`   // a reply from the non-target source was delivered
 	Attempts int    `json:"attempts,omitempty"` // UDP sends / TCP dials
-	Outcome  string `json:"outcome,omitempty"`  // reject probe: rst|eof|timeout|data
+	Outcome  string `json:"outcome,omitempty"`  // reject probe: rst|eof|timeout|data; see evaluate() for the others
+	Retried  bool   `json:"retried,omitempty"`  // a burst was incomplete once and complete on the second attempt
 	Millis   int64  `json:"ms"`
 }
 
@@ -370,7 +415,7 @@ func readUntil(c net.Conn, delim string, max int) ([]byte, error) {
 }
 
 // tcpExchange runs one TCP echo through a server speaking kind.
-func tcpExchange(p *Probe, addr, target string) probeResult {
+func tcpExchange(p *Probe, addr, target string, tm *tlsClient) probeResult {
 	t0 := time.Now()
 	r := probeResult{Kind: p.Kind, Addr: addr}
 	fail := func(format string, a ...any) probeResult {
@@ -378,10 +423,22 @@ func tcpExchange(p *Probe, addr, target string) probeResult {
 		r.Millis = time.Since(t0).Milliseconds()
 		return r
 	}
-	c, attempts, err := dialRetry(addr, 8*time.Second)
-	r.Attempts = attempts
-	if err != nil {
-		return fail("dial: %v", err)
+	var c stream
+	if p.Pre407 {
+		var detail string
+		c, r.Outcome, detail = unauthenticatedConnects(p, addr, target, tm)
+		if r.Outcome == "auth-bypass" {
+			return fail("%s", detail)
+		}
+	}
+	if c == nil {
+		var attempts int
+		var err error
+		c, attempts, err = dialStream(p, addr, tm)
+		r.Attempts = attempts
+		if err != nil {
+			return fail("dial: %v", err)
+		}
 	}
 	defer c.Close()
 	c.SetDeadline(time.Now().Add(10 * time.Second))
